@@ -50,6 +50,10 @@ FAMILY["two-tags"] = [("parameters", 'Main", "X', ["k=2.0"]), ("parameters", "Ma
                       ("expressions", 'Main", "X', ["dx_dt = k - x*c"]), ("expressions", "Main", ["a = k*x", "dy_dt = a - y"])]
 
 
+FAMILY["case-twins"] = [("parameters", "Na", ["k=1.0", "K=2.0"]), ("parameters", "NA", ["q=3.0", "Q=4.0"]), ("states", "Na", ["x=1.0", "X=2.0"]), ("states", "NA", ["y=0.5"]),
+                        ("expressions", "Na", ["dx_dt = k*X - x", "dX_dt = K*x - q"]), ("expressions", "NA", ["i_K = Q*y", "I_K = q*y + x", "dy_dt = i_K - I_K"])]
+
+
 def render(blocks):
     lines = []
     for kind, comp, ents in blocks:
